@@ -25,6 +25,7 @@ TReset == /\ EnvEv("reset")
 TRound == WdEv("wd.round") /\ Tick
 \* the DWR is on the wire before wd.send is logged: the write (WriteDWR) is silent, wd.send = the goroutine reaches its select
 TSend  == WdEv("wd.send") /\ EnterSelect
+TWFail == WdEv("wd.writefail") /\ WriteFails
 TAck   == \/ WdEv("wd.ack") /\ AckFromSlot
           \/ Ev("wd.ack") /\ oweW /\ oweW' = FALSE /\ UNCHANGED oweD /\ Stutter
 TTimer == WdEv("wd.timer") /\ Timer
@@ -40,7 +41,7 @@ Silent == /\ l <= Len(Trace) /\ UNCHANGED l
           /\ \/ ~oweW /\ WriteDWR /\ UNCHANGED <<oweW, oweD>>
              \/ ~oweW /\ AckFromSlot /\ oweW' = TRUE /\ UNCHANGED oweD
              \/ ~oweD /\ AckOK /\ HandleDWA /\ oweD' = TRUE /\ UNCHANGED oweW
-TNext == TReset \/ TDup \/ TRound \/ TSend \/ TAck \/ TTimer \/ TClose \/ TRx \/ TDAck \/ TDDrop \/ TDFail \/ Silent
+TNext == TReset \/ TDup \/ TRound \/ TSend \/ TWFail \/ TAck \/ TTimer \/ TClose \/ TRx \/ TDAck \/ TDDrop \/ TDFail \/ Silent
 TInit == Init /\ l = 1 /\ oweW = FALSE /\ oweD = FALSE /\ TLCSet(1, 0)
 NotDone == l <= Len(Trace)
 HW == TLCSet(1, IF TLCGet(1) < l THEN l ELSE TLCGet(1))
